@@ -99,8 +99,53 @@ Definition view_of_map_value (f : fdesc) (vt : ptype) : fview :=
      v_stdtime := false; v_stddur := false; v_jsontag := None; v_oneof := None; v_comment := "";
      v_star := map_value_star f vt |}.
 
+(* GetFlagValue *)
+Definition flag (l : list string) (type_name path : string) : bool := mem_str type_name l || mem_str path l.
+
+(* lookup by path, then by Message.Field *)
+Definition by_keys {A} (m : list (string * A)) (type_name path : string) : option A :=
+  match lookup path m with Some v => Some v | None => lookup type_name m end.
+
+(* Everything the front end ever asks the configuration: the maps are only indexed by key, never
+   ranged over (C14); the selection of types and the package options are not among the questions
+   (C12, C13). *)
+Record cfg_obs := {
+  o_excluded : string -> string -> bool;        (* Message.Field, path *)
+  o_required : string -> string -> bool;
+  o_computed : string -> string -> bool;
+  o_sensitive : string -> string -> bool;
+  o_name_override : string -> string -> option string;
+  o_validators : string -> string -> option (list string);
+  o_planmods : string -> string -> option (list string);
+  o_injected : string -> option (list injected); (* message path *)
+  o_custom_type : string -> option string;      (* field path *)
+  o_suffix : string -> option string;           (* custom type name *)
+  o_sort : bool;
+  o_use_state : bool;
+  o_time_type : bool;
+  o_duration_type : bool;
+  o_duration_custom_type : string;
+}.
+
+Definition obs_of (cfg : config) : cfg_obs :=
+  {| o_excluded := flag (c_exclude cfg);
+     o_required := flag (c_required cfg);
+     o_computed := flag (c_computed cfg);
+     o_sensitive := flag (c_sensitive cfg);
+     o_name_override := by_keys (c_name_overrides cfg);
+     o_validators := by_keys (c_validators cfg);
+     o_planmods := by_keys (c_planmods cfg);
+     o_injected := fun p => lookup p (c_injected cfg);
+     o_custom_type := fun p => lookup p (c_custom_types cfg);
+     o_suffix := fun t => lookup t (c_suffixes cfg);
+     o_sort := c_sort cfg;
+     o_use_state := c_use_state cfg;
+     o_time_type := c_time_type cfg;
+     o_duration_type := c_duration_type cfg;
+     o_duration_custom_type := c_duration_custom_type cfg |}.
+
 Section Build.
-  Variable cfg : config.
+  Variable cfg : cfg_obs.
   Variable table : list mdesc.      (* every message of the request, by name *)
 
   Definition find_msg (n : string) : option mdesc :=
@@ -115,22 +160,15 @@ Section Build.
   Definition v_is_duration (v : fview) : bool :=
     v_stddur v || match v_type v with PDuration => true | _ => false end
     || String.eqb (v_cast v) "time.Duration"
-    || (negb (String.eqb (c_duration_custom_type cfg) "") && String.eqb (v_cast v) (c_duration_custom_type cfg)).
-
-  (* GetFlagValue *)
-  Definition flag (l : list string) (type_name path : string) : bool := mem_str type_name l || mem_str path l.
-
-  (* lookup by path, then by Message.Field *)
-  Definition by_keys {A} (m : list (string * A)) (type_name path : string) : option A :=
-    match lookup path m with Some v => Some v | None => lookup type_name m end.
+    || (negb (String.eqb (o_duration_custom_type cfg) "") && String.eqb (v_cast v) (o_duration_custom_type cfg)).
 
   (* GetTerraformType: (is_message, tfkind, cast-from scalar, has zero literal) *)
   Definition terraform_type (v : fview) (path : string) : bres (bool * tfkind * goscalar * bool) :=
     if v_is_time v then
-      (if c_time_type cfg then BOk (false, KTime, GsTime, false)
+      (if o_time_type cfg then BOk (false, KTime, GsTime, false)
        else BErr (path ++ " field has time type, but config.time_type is not defined"))
     else if v_is_duration v then
-      (if c_duration_type cfg then BOk (false, KDur, GsDuration, false)
+      (if o_duration_type cfg then BOk (false, KDur, GsDuration, false)
        else BErr (path ++ " field has duration type, but config.duration_type is not defined"))
     else
       match v_type v with
@@ -190,32 +228,32 @@ Section Build.
         (* BuildField for one view; returns the (possibly flattened) fields *)
         let build_view (v : fview) (index_is_value : bool) (type_name fpath : string) (orig : option fdesc)
             : bres (list field) :=
-          if flag (c_exclude cfg) type_name fpath then BOk []
+          if o_excluded cfg type_name fpath then BOk []
           else
             bdo tt0 <- terraform_type v fpath;
             let '(is_msg, tk, gs, zero) := tt0 in
             let name := go_name (v_name v) in
             let snake :=
-              match by_keys (c_name_overrides cfg) type_name fpath with
+              match o_name_override cfg type_name fpath with
               | Some s => s
               | None => let j := json_name (v_jsontag v) in
                         if String.eqb j "" then snake_case (v_name v) else j
               end in
-            let computed := flag (c_computed cfg) type_name fpath in
+            let computed := o_computed cfg type_name fpath in
             let pms :=
-              match by_keys (c_planmods cfg) type_name fpath with
+              match o_planmods cfg type_name fpath with
               | Some l => l
-              | None => if c_use_state cfg && computed
+              | None => if o_use_state cfg && computed
                         then ["github.com/hashicorp/terraform-plugin-framework/tfsdk.UseStateForUnknown()"]
                         else []
               end in
-            let vals := match by_keys (c_validators cfg) type_name fpath with Some l => l | None => [] end in
+            let vals := match o_validators cfg type_name fpath with Some l => l | None => [] end in
             let base : finfo :=
               {| fi_name := name; fi_snake := snake; fi_path := fpath; fi_kind := PrimitiveKind;
                  fi_tk := tk; fi_cast := gs; fi_nullable := v_star v; fi_zero := zero; fi_placeholder := false;
                  fi_oneof := None; fi_via := []; fi_parent := None;
-                 fi_required := flag (c_required cfg) type_name fpath; fi_computed := computed;
-                 fi_sensitive := flag (c_sensitive cfg) type_name fpath;
+                 fi_required := o_required cfg type_name fpath; fi_computed := computed;
+                 fi_sensitive := o_sensitive cfg type_name fpath;
                  fi_validators := vals; fi_planmods := pms;
                  fi_comment := if index_is_value then "" else field_comment (v_comment v);
                  fi_suffix := "" |} in
@@ -276,13 +314,13 @@ Section Build.
                    | _, _ => BOk None
                    end);
                 let custom_t :=
-                  match lookup fpath (c_custom_types cfg) with
+                  match o_custom_type cfg fpath with
                   | Some t => Some t
                   | None => if String.eqb (v_custom v) "" then None else Some (v_custom v)
                   end in
                 let suffix :=
                   match custom_t with
-                  | Some t => match lookup t (c_suffixes cfg) with Some s => s | None => default_suffix t end
+                  | Some t => match o_suffix cfg t with Some s => s | None => default_suffix t end
                   | None => ""
                   end in
                 let '(kd, tk', gs', nullable', zero', msg') :=
@@ -329,9 +367,9 @@ Section Build.
                         bdo y <- go r;
                         BOk (x ++ y)%list
                     end) fs;
-               BOk (if c_sort cfg then sort_by (fun f => fi_name (f_info f)) l else l)
+               BOk (if o_sort cfg then sort_by (fun f => fi_name (f_info f)) l else l)
            end);
-        let inj := match lookup path (c_injected cfg) with Some l => l | None => [] end in
+        let inj := match o_injected cfg path with Some l => l | None => [] end in
         BOk (Msg mname fields (map go_name (md_oneofs d)) inj
                  (match md_fields d with [] => true | _ => false end)
                  (zero_struct (S (List.length table)) mname))
@@ -345,7 +383,7 @@ Definition build_roots (cfg : config) (f : file) : list (string * bres message) 
   let table := all_msgs f in
   let fuel := S (List.length table) in
   flat_map (fun d => if mem_str (md_name d) (c_types cfg)
-                     then [(md_name d, build_message cfg table fuel d (md_name d))]
+                     then [(md_name d, build_message (obs_of cfg) table fuel d (md_name d))]
                      else []) table.
 
 Definition ok_roots (cfg : config) (f : file) : list (string * message) :=
